@@ -110,13 +110,32 @@ def check_python(ctx):
             for h in node.handlers:
                 if not (isinstance(h.type, ast.Name) and h.type.id == "ImportError"):
                     shim_ok = False
-                reraises = False
-                for st in ast.walk(h):
-                    if isinstance(st, ast.If):
-                        for o in st.orelse:
-                            if isinstance(o, ast.Raise) and o.exc is None:
-                                reraises = True
-                if not reraises:
+                # every way through the handler either re-raises the ImportError or ends with the native function bound
+                # (`if win: …import… else: raise`, or the guard form `if not win: raise` followed by the import)
+                def ways(stmts, bound):
+                    """Set of states in which control can fall off the end of stmts: True = native function bound."""
+                    states = {bound}
+                    for st in stmts:
+                        nxt = set()
+                        for bd in states:
+                            if isinstance(st, ast.Raise):
+                                if st.exc is not None:
+                                    nxt.add("other-exception")
+                                continue                       # bare raise: the ImportError goes on
+                            if isinstance(st, ast.ImportFrom) and st.level == 1 and any(al.name == "apply" for al in st.names):
+                                nxt.add(True)
+                            elif isinstance(st, ast.If):
+                                nxt |= ways(st.body, bd) | ways(st.orelse, bd)
+                            elif isinstance(st, (ast.Try, ast.With, ast.For, ast.While)):
+                                nxt.add("unread")
+                            elif isinstance(st, ast.Return):
+                                nxt.add(bd)
+                            else:
+                                nxt.add(bd)
+                        states = nxt
+                    return states
+                ends = ways(h.body, False)
+                if ends - {True}:
                     shim_ok = False
         if isinstance(node, ast.ImportFrom) and node.level == 1:
             for al in node.names:
